@@ -117,4 +117,15 @@ theorem runSteps_wellFormed (o h f : InputDesc)
   rw [mask_phase, infNanWarns_toFloat, rangeWarns_toFloat, maskedWarns_toFloat]
   simp [okWarns, convDesc, List.append_assoc]
 
+theorem mem_bif_singleton {α} (a w : α) (c : Bool) : a ∈ (bif c then [w] else []) ↔ (c = true ∧ a = w) := by
+  cases c <;> simp
+
+theorem mem_bif_singleton' {α} (a w : α) (c : Bool) : a ∈ (bif c then [] else [w]) ↔ (c = false ∧ a = w) := by
+  cases c <;> simp
+
+/-- membership in the warnings of one phase -/
+theorem mem_phaseWarns (k : Kind) (p flag : InputDesc → Bool) (x : Inputs) (w : Warn) :
+    w ∈ phaseWarns k p flag x ↔ ∃ a ∈ args3, p (getArg x a) = true ∧ w = { kind := k, arg := a, flag := flag (getArg x a) } := by
+  simp [phaseWarns, warnIf, mem_bif_singleton, args3]
+
 end Lemmas.Contract
